@@ -74,8 +74,8 @@ Theorem lists_exactly_holds hf f g t0 p t :
   NoDup (map fst (vg_imports g)) -> NoDup (map fst (vg_exports g)) ->
   from_graph hf f g t0 = COk (p, t) -> lists_exactly g t p.
 Proof.
-  intros Hi He H. unfold from_graph in H.
-  inv_bind H as [imports s1] Ha. inv_bind H as [exports s2] Ha0.
+  intros Hi He H. unfold from_graph in H. inv_bind H as [[imports exports] s2] Hc. unfold conv_items in Hc.
+  inv_bind Hc as [imports' s1] Ha. inv_bind Hc as [exports' s2'] Ha0. injection Hc as -> -> ->.
   apply collect_spec in Ha; [|assumption|intros ? ? []]. destruct Ha as [im [-> Him]].
   apply collect_spec in Ha0; [|assumption|intros ? ? []]. destruct Ha0 as [ex [-> Hex]].
   cbn [app] in H. unfold add_world, add_if in H. cbn [t_tag t_worlds t_interfaces] in H.
